@@ -65,6 +65,7 @@ func (r response) coq() string {
 
 type twin struct {
 	Kind    string       `json:"kind"`
+	How     string       `json:"obtained"` // the way the starting transaction was obtained (provenance.go)
 	Tx      txgen.TxSpec `json:"tx"`
 	Quote   feegen.Quote `json:"quote"`
 	History []response   `json:"history"`
@@ -89,9 +90,13 @@ func deficitNow(tx *bt.Tx, q feegen.Quote) (*big.Int, bool) {
 }
 
 func fundCase(kind string, s txgen.TxSpec, q feegen.Quote, hist []response, hyp bool) {
-	tx := txgen.Build(s)
+	fundCaseHow(kind, nextHow(), s, q, hist, hyp)
+}
+
+func fundCaseHow(kind, how string, s txgen.TxSpec, q feegen.Quote, hist []response, hyp bool) fundObs {
+	tx, how := obtain(s, how)
 	fq := q.Build()
-	tw := twin{kind, s, q, hist}
+	tw := twin{kind, how, s, q, hist}
 	var calls []uint64
 	exhausted := false
 	next := func(ctx context.Context, deficit uint64) ([]*bt.UTXO, error) {
@@ -106,6 +111,20 @@ func fundCase(kind string, s txgen.TxSpec, q feegen.Quote, hist []response, hyp 
 				c.Violate("Fund/called-without-deficit", fmt.Sprintf("call %d with argument %d although inputs cover outputs and fee", k, deficit), tw)
 			} else if want.Cmp(new(big.Int).SetUint64(deficit)) != 0 {
 				c.Violate("Fund/wrong-deficit-argument", fmt.Sprintf("call %d: argument %d, current deficit %s", k, deficit, want), tw)
+			}
+		}
+		// the same, with the current deficit computed from what the transaction says at this moment (every input without
+		// an unlocking script counted with the 107 bytes it will carry) and not from the library's own size estimate
+		if hyp {
+			var now txgen.TxSpec
+			if p, _ := common.Safely(func() { now = txgen.FromTx(tx) }); !p {
+				if want, ok := deficitSpec(now, q); ok {
+					if want.Sign() == 0 {
+						c.Violate("Fund/called-without-deficit", fmt.Sprintf("call %d with argument %d although inputs cover outputs and the fee of the estimated final size", k, deficit), tw)
+					} else if want.Cmp(new(big.Int).SetUint64(deficit)) != 0 {
+						c.Violate("Fund/wrong-deficit-argument", fmt.Sprintf("call %d: argument %d, but outputs + fee of the estimated final size - inputs = %s", k, deficit, want), tw)
+					}
+				}
 			}
 		}
 		if deficit == 0 {
@@ -185,6 +204,19 @@ func fundCase(kind string, s txgen.TxSpec, q feegen.Quote, hist []response, hyp 
 		if d, ok := deficitNow(tx, q); !ok || d.Sign() != 0 || p2 || enoughErr != nil || !enough {
 			c.Violate("Fund/success-undercovered", fmt.Sprintf("Fund succeeded but deficit is %v (EstimateIsFeePaidEnough %v %v)", d, enough, enoughErr), tw)
 		}
+		// and from the description of the transaction Fund left behind
+		if d, ok := deficitSpec(after, q); ok && d.Sign() != 0 {
+			c.Violate("Fund/success-undercovered", fmt.Sprintf("Fund succeeded but outputs + fee of the estimated final size exceed inputs by %v", d), tw)
+		}
+	}
+	// no deficit from the start: success without a call (stated from the description)
+	if d, ok := deficitSpec(s, q); ok && hyp && !pan {
+		if d.Sign() == 0 && (err != nil || len(calls) != 0) {
+			c.Violate("Fund/covered-start-not-accepted", fmt.Sprintf("the starting transaction is covered; Fund made %d calls and returned %v", len(calls), err), tw)
+		}
+		if d.Sign() != 0 && len(calls) == 0 {
+			c.Violate("Fund/deficit-but-no-call", fmt.Sprintf("the starting transaction lacks %v; the supplier was never called (Fund returned %v)", d, err), tw)
+		}
 	}
 
 	var hs, cs []string
@@ -220,7 +252,8 @@ func fundCase(kind string, s txgen.TxSpec, q feegen.Quote, hist []response, hyp 
 	if used > len(hist) {
 		used = len(hist)
 	}
-	c.Case(coq, tw, feegen.CoqTx(s)+q.Key()+strings.Join(hs[:used], ";")+fmt.Sprint(len(calls)), len(calls) > 0)
+	c.Case(coq, tw, how+feegen.CoqTx(s)+q.Key()+strings.Join(hs[:used], ";")+fmt.Sprint(len(calls)), len(calls) > 0)
+	return fundObs{verdict, calls, after}
 }
 
 func norm(ins []txgen.InSpec) []txgen.InSpec {
@@ -345,6 +378,93 @@ func startTx(r *common.Rand, which int, q feegen.Quote) txgen.TxSpec {
 	return s
 }
 
+// respend: the supplier's coins need not be distinct from one another or from what the transaction already spends (a
+// wallet that does not track what it handed out): one UTXO gets the outpoint of a prior input of the starting
+// transaction / is returned twice in its batch / is returned again in the next batch. Every UTXO returned is spent.
+func respend(r *common.Rand, s txgen.TxSpec, hist []response, fixed int) string {
+	var batches []int
+	for i, h := range hist {
+		if h.Kind == "batch" && len(h.Utxos) > 0 {
+			batches = append(batches, i)
+		}
+	}
+	if len(batches) == 0 {
+		return ""
+	}
+	b := batches[r.Intn(len(batches))]
+	what := r.Intn(3)
+	if fixed >= 0 { // the first batch (the one certainly asked for), the given variant
+		b, what = batches[0], fixed%3
+	}
+	us := append([]utxo{}, hist[b].Utxos...)
+	if what == 0 && len(s.Ins) == 0 {
+		what = 1
+	}
+	switch what {
+	case 0:
+		in := s.Ins[r.Intn(len(s.Ins))]
+		k := r.Intn(len(us))
+		us[k].Txid, us[k].Vout = in.Txid, in.Vout
+		hist[b].Utxos = us
+		return "prior-outpoint"
+	case 1:
+		hist[b].Utxos = append(us, us[0])
+		return "twice-in-batch"
+	}
+	for _, nb := range batches {
+		if nb > b {
+			hist[nb].Utxos = append([]utxo{us[len(us)-1]}, hist[nb].Utxos...)
+			return "again-next-batch"
+		}
+	}
+	hist[b].Utxos = append(us, us[len(us)-1])
+	return "twice-in-batch"
+}
+
+// draftTx: starting transactions with several prior inputs, unsigned and signed mixed, coins of one address, an
+// inscription coin; the last shapes lack only a few satoshis, less than the fee of the unlocking scripts still to come
+func draftTx(r *common.Rand, which int, q feegen.Quote) txgen.TxSpec {
+	s := txgen.TxSpec{Version: 1 + uint32(which/6%2)}
+	p := func() string { return common.Hex(feegen.P2PKH(feegen.Fill(r, 20))) }
+	signed := func(sats uint64, l int) txgen.InSpec {
+		in := feegen.InCheap(r, sats)
+		in.UnlockNil, in.Unlock = false, common.Hex(feegen.Fill(r, l))
+		return in
+	}
+	switch which % 6 {
+	case 0: // two coins of one address, unsigned
+		a, b := feegen.InCheap(r, 400), feegen.InCheap(r, 350)
+		b.Prev = a.Prev
+		s.Ins = []txgen.InSpec{a, b}
+		s.Outs = []txgen.OutSpec{{Sats: 5000, Script: p()}}
+	case 1: // unsigned, signed, unsigned; payment and data
+		s.Ins = []txgen.InSpec{feegen.InCheap(r, 700), signed(200, 107), feegen.InCheap(r, 90)}
+		s.Outs = []txgen.OutSpec{{Sats: 3000, Script: p()}, {Sats: 0, Script: common.Hex(feegen.Data(1, feegen.Fill(r, 30)))}}
+	case 2: // a signed input with a 106-byte script first, then unsigned ones
+		s.Ins = []txgen.InSpec{signed(1000, 106), feegen.InCheap(r, 10), feegen.InCheap(r, 20), feegen.InCheap(r, 30)}
+		s.Outs = []txgen.OutSpec{{Sats: 2500, Script: p()}, {Sats: 546, Script: p()}}
+	case 3: // an inscription coin and a plain one, unsigned
+		a := feegen.InCheap(r, 1)
+		a.Prev = common.Hex(feegen.Inscription(feegen.Fill(r, 20), []byte("text/plain"), []byte("x")))
+		s.Ins = []txgen.InSpec{a, feegen.InCheap(r, 800)}
+		s.Outs = []txgen.OutSpec{{Sats: 1500, Script: p()}}
+	default: // 4, 5: unsigned inputs worth outputs + fee of the estimated final size - (1 or half the fee of their unlocking scripts)
+		n := 1 + which%6 - 3 // 2 or 3 inputs
+		for i := 0; i < n; i++ {
+			s.Ins = append(s.Ins, feegen.InCheap(r, 0))
+		}
+		s.Outs = []txgen.OutSpec{{Sats: 10000, Script: p()}}
+		if d, ok := deficitSpec(s, q); ok && d.IsUint64() && d.Uint64() > 2 {
+			lack := uint64(1)
+			if which/6%2 == 1 && q.Std != nil && q.Std.Bytes > 0 {
+				lack = 1 + uint64(n*107*q.Std.Sat/q.Std.Bytes)/2
+			}
+			s.Ins[n-1].Sats = d.Uint64() - lack
+		}
+	}
+	return s
+}
+
 func main() {
 	c = common.Parse("C12")
 	c.SetHeader(header)
@@ -382,7 +502,7 @@ func main() {
 		rec(nil)
 	}
 	// random histories with the remaining kinds, exact funding, more start shapes
-	n := 500
+	n := 420
 	if thorough {
 		n = 6000
 	}
@@ -433,6 +553,41 @@ func main() {
 		}
 		fundCase("large-batches", st, q, hist, true)
 	}
+	// one starting transaction, one quote, one history: funded once per way of obtaining the transaction; verdict, the
+	// deficits the supplier was given and the transaction left behind must not depend on the way
+	drafts := 10
+	if thorough {
+		drafts = 120
+	}
+	routeKinds := []string{"under", "multi", "over", "empty", "zerovalue", "noutxo"}
+	for k := 0; k < drafts; k++ {
+		q := feegen.Quotes[(k+int(c.Seed))%len(feegen.Quotes)]
+		s := draftTx(r, k, q)
+		out := feegen.SumOut(s).Uint64()
+		var hist []response
+		for i, l := 0, 1+r.Intn(3); i < l; i++ {
+			kinds := routeKinds
+			if i == 0 && k%2 == 1 {
+				kinds = routeKinds[:2] // a batch that does not cover: the next answer is asked for as well
+			}
+			hist = append(hist, mkResp(r, kinds[r.Intn(len(kinds))], q, out))
+		}
+		kind := "obtained"
+		if k%2 == 1 {
+			if w := respend(r, s, hist, k/2); w != "" {
+				kind = "obtained-respend-" + w
+			}
+		}
+		var ref fundObs
+		for hi, how := range hows {
+			o := fundCaseHow(kind, how, s, q, hist, true)
+			if hi == 0 {
+				ref = o
+			} else if !o.same(ref) {
+				c.Violate("Fund/depends-on-how-the-transaction-was-obtained", fmt.Sprintf("assembled from struct literals: %v; obtained by %q: %v", ref, how, o), twin{"obtained", how, s, q, hist})
+			}
+		}
+	}
 	for k := 0; k < n; k++ {
 		q := feegen.Quotes[r.Intn(len(feegen.Quotes))]
 		s := startTx(r, r.Intn(6), q)
@@ -477,8 +632,13 @@ func main() {
 			}
 			hist = append(hist, resp)
 		}
+		if kind == "random" && r.Intn(4) == 0 {
+			if w := respend(r, s, hist, -1); w != "" {
+				kind = "respend-" + w
+			}
+		}
 		fundCase(kind, s, q, hist, hyp)
 	}
-	c.Stats.Rule = "exhaustive supplier histories of length 0..4 (thorough 0..6) over the response kinds {empty batch, one under-funding UTXO, one over-funding UTXO, 2..3 UTXOs, ErrNoUTXO (wrapped), other error} (thorough: again to length 4 with a batch carrying a 31/33/0-byte txid in the middle as a seventh kind), each with a start transaction (no inputs / a small unsigned input / nothing at all / already covered / data output and a signed input / three payments) and a quote (9 quotes: 1/20..50 sat/byte, unequal std/data) in rotation; UTXO values scale with the cost of an input at the quote; plus a history of 131 calls (thorough: also 200 and 300) with one small UTXO each (covered only near the end), six histories of large batches (the input count crossing 252/253 inside a batch, between batches, and by a batch of 260), random histories of length 0..6 adding zero-value UTXOs, nil / non-P2PKH / inscription locking scripts, bad txids and a UTXO worth the exact deficit +-1, missing fee type, zero denominator, nil previous script in the start transaction, outputs near 2^64. A used-up history answers ErrNoUTXO. distinct = distinct (start tx, quote, consumed part of the history); non-trivial = the supplier was called at least once"
+	c.Stats.Rule = "exhaustive supplier histories of length 0..4 (thorough 0..6) over the response kinds {empty batch, one under-funding UTXO, one over-funding UTXO, 2..3 UTXOs, ErrNoUTXO (wrapped), other error} (thorough: again to length 4 with a batch carrying a 31/33/0-byte txid in the middle as a seventh kind), each with a start transaction (no inputs / a small unsigned input / nothing at all / already covered / data output and a signed input / three payments) and a quote (9 quotes: 1/20..50 sat/byte, unequal std/data) in rotation; UTXO values scale with the cost of an input at the quote; plus a history of 131 calls (thorough: also 200 and 300) with one small UTXO each (covered only near the end), six histories of large batches (the input count crossing 252/253 inside a batch, between batches, and by a batch of 260), random histories of length 0..6 adding zero-value UTXOs, nil / non-P2PKH / inscription locking scripts, bad txids and a UTXO worth the exact deficit +-1, missing fee type, zero denominator, nil previous script in the start transaction, outputs near 2^64, and (one random history in four, every second draft) a UTXO that carries the outpoint of a prior input / is returned twice in its batch / again in the next batch. A used-up history answers ErrNoUTXO. The starting transaction of every case is OBTAINED by one of 17 routes in rotation (struct literals with nil / empty-but-present unlocking scripts, From, FromUTXOs with one script pointer per address, decoded from bytes / hex / a stream / the extended format / JSON / node JSON with the spent scripts and values filled in afterwards, Clone, signed and cleared by re-slicing / a fresh empty script / nil, equal scripts shared as one pointer, slices with spare capacity, a shallow copy / clone of a clone; a route that cannot express the spec falls back to literals and is tallied), and 10 drafts (thorough 120) with 2..4 prior inputs (unsigned and signed mixed, coins of one address, an inscription coin, inputs lacking 1 satoshi or half the fee of the unlocking scripts still to come) are funded once per route with the same quote and history: verdict, deficits handed to the supplier and the transaction left behind must agree across routes. Besides the predicates over the library's own estimate, the deficit at every call, at the start and on success is computed from the plain description of the transaction (every input without unlocking script counted with 107 bytes). distinct = distinct (route, start tx, quote, consumed part of the history); non-trivial = the supplier was called at least once"
 	c.Finish()
 }
